@@ -80,6 +80,34 @@ def runConnect (quiet closeEv : List Nat) : List (AEv × SoAns) → CTrace
       { t with asks := t.asks + (if o.asked then 1 else 0), consumed := t.consumed + 1 }
     | r => ⟨r, o.toclose, if o.asked then 1 else 0, 1⟩
 
+/-! ## net/connect, the synchronous part of `cfun_net_connect` once the socket and its stream exist:
+    `do { status = connect(…) } while (status == -1 && errno == EINTR);`  then
+    `if (status) { if (err != EINPROGRESS) { janet_stream_close(stream); janet_panicf(…) } }  net_sched_connect(stream);` -/
+
+inductive ConnAns where
+  | ok | eintr | inprogress
+  | err (e : Nat)        -- any errno other than EINTR / EINPROGRESS
+  deriving Repr, DecidableEq, Inhabited
+
+inductive ConnStart where
+  | registered           -- net_sched_connect: the fiber waits in the WRITE slot (`runConnect` from here on)
+  | raised (e : Nat)     -- "could not connect socket: …"
+  | starved              -- the answer list ended inside the EINTR loop
+  deriving Repr, DecidableEq, Inhabited
+
+structure ConnOut where
+  res : ConnStart
+  calls : Nat            -- connect() calls made
+  closes : Nat           -- janet_stream_close(stream) calls (the stream owns the descriptor)
+  deriving Repr, DecidableEq, Inhabited
+
+def connectCall : List ConnAns → ConnOut
+  | [] => ⟨.starved, 0, 0⟩
+  | .eintr :: as => { connectCall as with calls := (connectCall as).calls + 1 }
+  | .ok :: _ => ⟨.registered, 1, 0⟩
+  | .inprogress :: _ => ⟨.registered, 1, 0⟩
+  | .err e :: _ => ⟨.raised e, 1, 1⟩
+
 /-! ## net/accept, net/accept-loop -/
 
 /-- answer of `accept4(lfd, NULL, NULL, SOCK_CLOEXEC)` -/
